@@ -65,15 +65,19 @@ enum Fam {
     SomeStatic,
     /// only the second contour moves
     OneContour,
+    /// every master is an affine image (scale + shift) of the default: IUP infers most deltas,
+    /// with fractional inferred values inside its tolerance
+    Scale,
 }
 
 impl Fam {
-    const ALL: [Fam; 3] = [Fam::AllMove, Fam::SomeStatic, Fam::OneContour];
+    const ALL: [Fam; 4] = [Fam::AllMove, Fam::SomeStatic, Fam::OneContour, Fam::Scale];
     fn name(self) -> &'static str {
         match self {
             Fam::AllMove => "all-move",
             Fam::SomeStatic => "some-static",
             Fam::OneContour => "one-contour",
+            Fam::Scale => "scale",
         }
     }
 }
@@ -86,8 +90,8 @@ struct Case {
     n: usize,
     /// full masters, origin first
     locs: Vec<QLoc>,
-    /// glyph-only layer master (hosted by the default master's UFO)
-    layer: Option<QLoc>,
+    /// glyph-only layer masters (hosted by the default master's UFO)
+    layers: Vec<QLoc>,
     kind: Kind,
     fam: Fam,
     keep_direction: bool,
@@ -102,7 +106,7 @@ impl Case {
             "n{} masters[{}]{} {} {}{}{}",
             self.n,
             self.locs.iter().map(f).collect::<Vec<_>>().join(" | "),
-            self.layer.as_ref().map(|l| format!(" layer[{}]", f(l))).unwrap_or_default(),
+            self.layers.iter().map(|l| format!(" layer[{}]", f(l))).collect::<String>(),
             self.kind.name(),
             self.fam.name(),
             if self.keep_direction { " keep-direction" } else { "" },
@@ -194,17 +198,17 @@ fn location_sets(n: usize, max_extra: usize) -> Vec<Vec<QLoc>> {
     out
 }
 
-/// candidate locations for the glyph-only layer master
-fn layer_candidates(n: usize, set: &[QLoc]) -> Vec<QLoc> {
-    let mut c = vec![];
+/// candidate sets of glyph-only layer masters
+fn layer_candidates(n: usize, set: &[QLoc]) -> Vec<Vec<QLoc>> {
+    let mut c: Vec<Vec<QLoc>> = vec![];
     let mut half = vec![0i8; n];
     half[0] = 2;
     if !set.contains(&half) {
-        c.push(half);
+        c.push(vec![half]);
     } else {
         let mut q = vec![0i8; n];
         q[0] = 1;
-        c.push(q);
+        c.push(vec![q]);
     }
     if n >= 2 {
         // off the grid lines: the earlier masters' regions have fractional scalars here, so the
@@ -212,7 +216,13 @@ fn layer_candidates(n: usize, set: &[QLoc]) -> Vec<QLoc> {
         let mut hh = vec![0i8; n];
         hh[0] = 2;
         hh[1] = 2;
-        c.push(hh);
+        c.push(vec![hh.clone()]);
+        // two off-grid layer masters, one inside the other's region: the second one's delta
+        // depends on the first one's ROUNDED delta with a fractional weight
+        let mut qh = vec![0i8; n];
+        qh[0] = 1;
+        qh[1] = 2;
+        c.push(vec![hh, qh]);
     }
     c
 }
@@ -231,23 +241,26 @@ fn spaces(tier: Tier) -> (Vec<Case>, Vec<Value>) {
         for set in &sets {
             let mut locs = vec![vec![0i8; n]];
             locs.extend(set.iter().cloned());
-            let mut layers: Vec<Option<QLoc>> = vec![None];
-            layers.extend(layer_candidates(n, set).into_iter().map(Some));
+            let mut layers: Vec<Vec<QLoc>> = vec![vec![]];
+            layers.extend(layer_candidates(n, set));
             let has_pos0 = set.iter().any(|p| p[0] > 0);
             for kind in Kind::ALL {
                 for fam in Fam::ALL {
                     for layer in &layers {
-                        cases.push(Case { n, locs: locs.clone(), layer: layer.clone(), kind, fam, keep_direction: false, mapped: false });
+                        if layer.len() == 2 && locs.len() > 4 {
+                            continue; // the two-layer option stays with the small sets
+                        }
+                        cases.push(Case { n, locs: locs.clone(), layers: layer.clone(), kind, fam, keep_direction: false, mapped: false });
                     }
                     // keep-direction: the sub-space of small sets without a layer master
                     if locs.len() <= 3 {
-                        cases.push(Case { n, locs: locs.clone(), layer: None, kind, fam, keep_direction: true, mapped: false });
+                        cases.push(Case { n, locs: locs.clone(), layers: vec![], kind, fam, keep_direction: true, mapped: false });
                     }
                 }
                 // a non-linear axis map (avar): line and composite glyphs, all-move family
                 if has_pos0 && locs.len() <= 3 && matches!(kind, Kind::Line | Kind::Composite) {
                     for layer in &layers[..2] {
-                        cases.push(Case { n, locs: locs.clone(), layer: layer.clone(), kind, fam: Fam::AllMove, keep_direction: false, mapped: true });
+                        cases.push(Case { n, locs: locs.clone(), layers: layer.clone(), kind, fam: Fam::AllMove, keep_direction: false, mapped: true });
                     }
                 }
             }
@@ -283,7 +296,21 @@ fn base_shape(s: Shape) -> Vec<Contour> {
         Shape::Line => vec![
             // a triangle with .5 fractions (one negative) in the default master
             shapes::line_contour(&[(-30.5, 0.0), (450.5, 0.0), (250.0, 400.5)]),
-            shapes::line_contour(&[(500.0, 100.0), (600.0, 100.0), (600.0, 200.5), (500.0, 200.0)]),
+            // a 12-gon: enough points for a sparse (IUP) gvar encoding to be the smaller one
+            shapes::line_contour(&[
+                (620.0, 160.0),
+                (612.0, 205.0),
+                (590.0, 238.0),
+                (560.0, 250.5),
+                (530.0, 238.0),
+                (508.0, 205.0),
+                (500.0, 160.0),
+                (508.0, 115.0),
+                (530.0, 82.0),
+                (560.0, 70.0),
+                (590.0, 82.0),
+                (612.0, 115.0),
+            ]),
         ],
         Shape::Quad => vec![
             // on/off alternating; every on-curve point is the midpoint of its neighbours in the default
@@ -336,6 +363,7 @@ fn disp(fam: Fam, c: usize, i: usize, npts: usize, m: usize) -> (f64, f64) {
                 all
             }
         }
+        Fam::Scale => unreachable!(),
     }
 }
 
@@ -346,6 +374,10 @@ fn drawing(s: Shape, fam: Fam, m: usize) -> Vec<Contour> {
         .map(|(c, ct)| {
             let n = ct.points.len();
             shapes::map_contour(ct, |i, x, y| {
+                if fam == Fam::Scale {
+                    let k = m as f64;
+                    return (x * (1.0 + 0.03 * k) + if m > 0 { 7.0 * k + 0.5 } else { 0.0 }, y * (1.0 - 0.02 * k) - 4.0 * k);
+                }
                 let (dx, dy) = disp(fam, c, i, n, m);
                 (x + dx, y + dy)
             })
@@ -365,7 +397,7 @@ fn off3(m: usize) -> (f64, f64) {
 
 fn build(case: &Case) -> (Design, fcx::Opts) {
     let n = case.n;
-    let all_locs: Vec<&QLoc> = case.locs.iter().chain(case.layer.iter()).collect();
+    let all_locs: Vec<&QLoc> = case.locs.iter().chain(case.layers.iter()).collect();
     let mut axes = vec![];
     for a in 0..n {
         let has_pos = all_locs.iter().any(|l| l[a] > 0);
@@ -385,7 +417,7 @@ fn build(case: &Case) -> (Design, fcx::Opts) {
     let dloc = |l: &QLoc| -> Vec<f64> { l.iter().map(|q| q_to_design(*q)).collect() };
     let mut d = Design::skeleton("C03", axes, case.locs.iter().map(dloc).collect());
     assert_eq!(d.default_master, 0);
-    if let Some(l) = &case.layer {
+    for l in &case.layers {
         d.add_layer_master(0, dloc(l));
     }
     let nm = d.masters.len();
@@ -550,15 +582,15 @@ struct Worst {
 }
 
 /// Compare one contour at one master through a correspondence.
-fn eval_contour(exp: &[EP], font: &[otvar::Pt], rot: usize, slots: &[Slot], b_kept: f64, b_dropped: f64, w: &mut Worst, tag: &str) {
+fn eval_contour(exp: &[EP], font: &[otvar::Pt], rot: usize, slots: &[Slot], pb: &[f64], w: &mut Worst, tag: &str) {
     let n = exp.len();
     for (t, s) in slots.iter().enumerate() {
         let e = &exp[(rot + t) % n];
         let (fx, fy, ex, ey, b, how) = match *s {
-            Slot::Kept(j) => (font[j].x, font[j].y, ot_round(e.x), ot_round(e.y), b_kept, "point"),
+            Slot::Kept(j) => (font[j].x, font[j].y, ot_round(e.x), ot_round(e.y), pb[j], "point"),
             Slot::Dropped(a, c) => {
                 w.dropped += 1;
-                ((font[a].x + font[c].x) / 2.0, (font[a].y + font[c].y) / 2.0, e.x, e.y, b_dropped, "implied on-curve point")
+                ((font[a].x + font[c].x) / 2.0, (font[a].y + font[c].y) / 2.0, e.x, e.y, pb[a].max(pb[c]) + 0.5, "implied on-curve point")
             }
         };
         let err = (fx - ex).abs().max((fy - ey).abs());
@@ -739,7 +771,7 @@ stats! {
         comparisons_composite, comparisons_at_layer_master, points_compared, implied_oncurve_points_dropped,
         designs_with_intermediate_region, designs_with_sparse_submodel, designs_with_iup_omitted_points,
         designs_with_composites, designs_with_nested_composites, designs_with_layer_master, designs_with_avar,
-        designs_keep_direction, glyphs_sparse, glyphs_with_fractional_master_scalar, iup_omitted_points,
+        designs_keep_direction, comparisons_with_iup_allowance, glyphs_sparse, glyphs_with_fractional_master_scalar, iup_omitted_points,
         gvar_tuples, gvar_intermediate_tuples, locations_off_master_by_quantisation, skrifa_crosschecks,
         static_compiles;
     // max_err_over_bound: largest |font - source| / bound over all non-default point comparisons
@@ -893,8 +925,10 @@ fn judge(d: &Design, opts: &fcx::Opts, xcheck: bool, st: &mut Stats) -> Outcome 
 
         // instantiate at every master the glyph has a drawing for
         let mut inst: BTreeMap<usize, otvar::InstGlyph> = BTreeMap::new();
-        let mut bound: BTreeMap<usize, f64> = BTreeMap::new();
+        // per master: the bound of every outline point (index over all contours)
+        let mut pbound: BTreeMap<usize, Vec<f64>> = BTreeMap::new();
         let mut slacks: BTreeMap<usize, f64> = BTreeMap::new();
+        let tuples = vf.glyph_tuples(gid).unwrap_or_default();
         let mut failed = false;
         let mut fractional = false;
         for &m in g.layers.keys() {
@@ -906,15 +940,35 @@ fn judge(d: &Design, opts: &fcx::Opts, xcheck: bool, st: &mut Stats) -> Outcome 
                     if devs[m] > 0.0 {
                         // the location differs from the master by F2Dot14 quantisation: allow the
                         // change of every tuple's scalar times its largest delta
-                        if let Ok(tuples) = vf.glyph_tuples(gid) {
-                            let exact = d.master_norm(m);
-                            for t in &tuples {
-                                let big = t.dx.iter().chain(&t.dy).map(|v| v.abs()).max().unwrap_or(0) as f64;
-                                slack += (t.scalar(&coords[m]) - t.scalar(&exact)).abs() * big;
-                            }
+                        let exact = d.master_norm(m);
+                        for t in &tuples {
+                            let big = t.dx.iter().chain(&t.dy).map(|v| v.abs()).max().unwrap_or(0) as f64;
+                            slack += (t.scalar(&coords[m]) - t.scalar(&exact)).abs() * big;
                         }
                     }
-                    let b = if m == d.default_master { 0.0 } else { 0.5 + 0.5 * sum + slack + 1e-6 };
+                    // 0.5 for the rounding of this master's delta, + 0.5 |scalar| for every active
+                    // tuple that leaves the point to IUP inference (tolerance 0.5 per tuple)
+                    let npts = i.points().len();
+                    let pb: Vec<f64> = (0..npts)
+                        .map(|p| {
+                            if m == d.default_master {
+                                return 0.0;
+                            }
+                            let iup: f64 = tuples
+                                .iter()
+                                .zip(&i.tuple_scalars)
+                                .filter(|(t, _)| t.points.as_ref().is_some_and(|v| !v.contains(&(p as u16))))
+                                .map(|(_, s)| 0.5 * s.abs())
+                                .sum();
+                            0.5 + iup + slack + 1e-6
+                        })
+                        .collect();
+                    if i.tuple_scalars.len() != tuples.len() {
+                        vcore::machinery_error("otvar: tuple_scalars and glyph_tuples disagree in length");
+                    }
+                    if pb.iter().any(|b| *b > 0.5 + slack + 1e-6) {
+                        st.comparisons_with_iup_allowance += 1;
+                    }
                     st.comparisons += 1;
                     if m != d.default_master {
                         st.comparisons_non_default += 1;
@@ -925,7 +979,7 @@ fn judge(d: &Design, opts: &fcx::Opts, xcheck: bool, st: &mut Stats) -> Outcome 
                     if matches!(d.masters[m].kind, dgen::MasterKind::LayerOf(_)) {
                         st.comparisons_at_layer_master += 1;
                     }
-                    bound.insert(m, b);
+                    pbound.insert(m, pb);
                     slacks.insert(m, slack);
                     inst.insert(m, i);
                 }
@@ -1032,7 +1086,7 @@ fn judge(d: &Design, opts: &fcx::Opts, xcheck: bool, st: &mut Stats) -> Outcome 
         if is_cubic {
             for (&m, layer) in &g.layers {
                 st.comparisons_cubic += 1;
-                let b = bound[&m];
+                let b = pbound[&m].iter().cloned().fold(0.0, f64::max);
                 let allow = cu2qu_tol + std::f64::consts::SQRT_2 * (0.5 + b) + SAMPLING_EPS;
                 for (ci, sc) in layer.contours.iter().enumerate() {
                     let Some(src) = flatten_source(sc) else { continue };
@@ -1129,9 +1183,10 @@ fn judge(d: &Design, opts: &fcx::Opts, xcheck: bool, st: &mut Stats) -> Outcome 
                 let mut max_err: f64 = 0.0;
                 let mut dropped = 0;
                 for (&m, e) in &exp {
-                    let b = bound[&m];
+                    let start: usize = font_contours[&m][..ci].iter().map(|c| c.len()).sum();
+                    let pb = &pbound[&m][start..start + font_contours[&m][ci].len()];
                     let mut wm = Worst::default();
-                    eval_contour(e, &font_contours[&m][ci], *rot, slots, b, b + 0.5, &mut wm, &format!("master {m}"));
+                    eval_contour(e, &font_contours[&m][ci], *rot, slots, pb, &mut wm, &format!("master {m}"));
                     if m != dm {
                         ratio = ratio.max(wm.ratio);
                         max_err = max_err.max(wm.max_err);
@@ -1160,7 +1215,7 @@ fn judge(d: &Design, opts: &fcx::Opts, xcheck: bool, st: &mut Stats) -> Outcome 
             for (&m, e) in &exp {
                 st.points_compared += e.len() as u64;
                 if m != dm {
-                    st.max_bound = st.max_bound.max(bound[&m]);
+                    st.max_bound = st.max_bound.max(pbound[&m].iter().cloned().fold(0.0, f64::max));
                 }
             }
             if !passed {
@@ -1252,6 +1307,10 @@ fn main() {
     }
     let mut rep = Reporter::new("C03", "exploration", &args);
     let (cases, notes) = spaces(args.tier);
+    if args.rest.iter().any(|a| a == "--count") {
+        println!("{} designs: {}", cases.len(), serde_json::to_string(&notes).unwrap());
+        return;
+    }
     let chunk = 8usize;
     let nchunks = cases.len().div_ceil(chunk);
     let results = vcore::par_for(nchunks, vcore::ncores(), |ci| {
